@@ -212,7 +212,7 @@ fn actix_rej<E: Expect>(e: &actix_web::Error) -> (Rej, Option<E>) {
     (Rej { origin, status, rs_status, ctype, body, display: e.to_string() }, carried)
 }
 
-fn actix_parts(r: &JsonReq, body: &[u8]) -> (actix_web::HttpRequest, actix_web::dev::Payload) {
+fn actix_parts(r: &JsonReq) -> (actix_web::HttpRequest, actix_web::dev::Payload) {
     use actix_web::http::header::{HeaderValue, CONTENT_LENGTH, CONTENT_TYPE};
     use actix_web::web::JsonConfig;
     let mut t = actix_web::test::TestRequest::default()
@@ -236,7 +236,18 @@ fn actix_parts(r: &JsonReq, body: &[u8]) -> (actix_web::HttpRequest, actix_web::
             }))
         }
     }
-    t.set_payload(bytes::Bytes::copy_from_slice(body)).to_http_parts()
+    // `TestRequest::set_payload` would force a Content-Length header; the payload stream is built here instead so
+    // that the header is exactly what the request says (present, absent, lying) and the body can arrive in pieces.
+    let (req, _none) = t.to_http_parts();
+    let mut items: Vec<Result<bytes::Bytes, actix_web::error::PayloadError>> =
+        r.pieces().into_iter().map(|c| Ok(bytes::Bytes::from(c))).collect();
+    if r.fail {
+        items.push(Err(actix_web::error::PayloadError::Incomplete(None)));
+    }
+    let stream: std::pin::Pin<Box<dyn futures::Stream<Item = Result<bytes::Bytes, actix_web::error::PayloadError>>>> =
+        Box::pin(futures::stream::iter(items));
+    let payload = actix_web::dev::Payload::Stream { payload: stream };
+    (req, payload)
 }
 
 pub fn actix_json<T, E>(r: &JsonReq) -> PairResult
@@ -244,10 +255,9 @@ where
     T: Deserr<E> + Debug + PartialEq + Default,
     E: Expect,
 {
-    let body = r.body();
     // oracle: the framework's own extractor on an identical request, then deserr::deserialize
     let exp: Exp<T, E> = match guarded(|| {
-        let (req, mut pl) = actix_parts(r, &body);
+        let (req, mut pl) = actix_parts(r);
         match block_on(actix_web::web::Json::<Value>::from_request(&req, &mut pl)) {
             Err(e) => Exp::FwReject(actix_rej::<E>(&e).0),
             Ok(v) => match deserr::deserialize::<T, _, E>(v.into_inner()) {
@@ -260,7 +270,7 @@ where
         Err(m) => Exp::OraclePanic(m),
     };
     let got: Got<T, E> = match guarded(|| {
-        let (req, mut pl) = actix_parts(r, &body);
+        let (req, mut pl) = actix_parts(r);
         match block_on(deserr::actix_web::AwebJson::<T, E>::from_request(&req, &mut pl)) {
             Ok(x) => Got::Accept(x.into_inner()),
             Err(e) => {
@@ -332,7 +342,7 @@ where
 // axum
 // ------------------------------------------------------------------------------------------------
 
-fn axum_request(r: &JsonReq, body: &[u8]) -> axum::extract::Request {
+fn axum_request(r: &JsonReq) -> axum::extract::Request {
     let mut b = http::Request::builder().method(r.method).uri("/doc");
     if let Some(ct) = &r.content_type {
         b = b.header(http::header::CONTENT_TYPE, http::HeaderValue::from_bytes(ct).expect("generator: header value"));
@@ -340,7 +350,16 @@ fn axum_request(r: &JsonReq, body: &[u8]) -> axum::extract::Request {
     if let Some(cl) = &r.content_length {
         b = b.header(http::header::CONTENT_LENGTH, http::HeaderValue::from_str(cl).expect("generator: header value"));
     }
-    let mut req = b.body(axum::body::Body::from(body.to_vec())).expect("generator: request");
+    let body = if r.chunks <= 1 && !r.fail {
+        axum::body::Body::from(r.body())
+    } else {
+        let mut items: Vec<Result<bytes::Bytes, std::io::Error>> = r.pieces().into_iter().map(|c| Ok(bytes::Bytes::from(c))).collect();
+        if r.fail {
+            items.push(Err(std::io::Error::new(std::io::ErrorKind::UnexpectedEof, "connection cut")));
+        }
+        axum::body::Body::from_stream(futures::stream::iter(items))
+    };
+    let mut req = b.body(body).expect("generator: request");
     if let Cfg::Limit(n) = r.cfg {
         axum::extract::DefaultBodyLimit::max(n).apply(&mut req);
     }
@@ -365,9 +384,8 @@ where
     E: Expect,
 {
     use deserr::axum::{AxumJson, AxumJsonRejection};
-    let body = r.body();
     let exp: Exp<T, E> = match guarded(|| {
-        let req = axum_request(r, &body);
+        let req = axum_request(r);
         match block_on(axum::Json::<Value>::from_request(req, &())) {
             Err(rej) => {
                 let origin = json_rejection_origin(&rej);
@@ -385,7 +403,7 @@ where
         Err(m) => Exp::OraclePanic(m),
     };
     let got: Got<T, E> = match guarded(|| {
-        let req = axum_request(r, &body);
+        let req = axum_request(r);
         match block_on(AxumJson::<T, E>::from_request(req, &())) {
             Ok(x) => Got::Accept(x.into_inner()),
             Err(rej) => {
@@ -427,6 +445,7 @@ pub fn json_req_to_json(r: &JsonReq) -> Value {
         "body_pad_spaces": r.pad,
         "body_suffix_hex": hex(&r.suffix),
         "config": r.cfg.to_json(),
+        "transport": {"chunks": r.chunks, "cut": r.fail},
         "class": r.class,
     })
 }
